@@ -117,7 +117,7 @@ Section CrashC20.
         rewrite (DX apply_recs_of_replay _ _ _ _ _ _ _ _ E). cbn [option_map].
         now rewrite K, K0, d_fold.
     - (* first-time initialisation pending: no snapshot, no segment, empty map *)
-      destruct RF as (-> & _ & _ & Wf & _ & _ & Gi & Gw).
+      destruct RF as (-> & _ & Wf & _ & _ & Gi & Gw).
       unfold WellFormedDisk. cbv zeta.
       assert (Ew : wal_ids s = []).
       { apply wal_ids_nil. intros i. apply fdat_none, Gw. }
